@@ -75,6 +75,19 @@ pub open spec fn seq_state<T: ZvtParser, S: VSource>(
     &&& forall|i: nat| i < j ==> (#[trigger] pkt::<T>(b, i)) is Some
 }
 
+/// An error is reported only for cause (C05, positive direction): with a connection that itself does not fail, a sequence
+/// that has yielded j packets may end in an error only if what comes next - the acknowledgement of the command when j == 0
+/// and it has not been read, otherwise the (j+1)-th reply - is missing, incomplete or not decodable as a reply of the command.
+pub open spec fn fails_for_cause<T: ZvtParser>(inbox0: Seq<u8>, j: nat) -> bool {
+    match apdu_total(inbox0) {
+        None => true,
+        Some(t0) => if Ack::parse_spec(inbox0.take(t0)) is None { true } else {
+            let b = inbox0.skip(t0);
+            !(apdu_total(b.skip(off(b, j))) is Some && pkt::<T>(b, j) is Some)
+        },
+    }
+}
+
 //@ include u5_all.tpl
 
 // ------------------------------------------------------------------ default body of `Sequence::into_stream`
@@ -102,6 +115,9 @@ pub fn into_stream_default<Source: VSource, I: ZvtSerializer + Sync + Send, O: Z
                     &&& final(src).source.writes() =~= w0.push((cmd, c0)) + acks(b, (c0 + t0) as nat, 1)
                  }))
         }),
+//@ tag seq.default.fails_only_for_cause C05
+        final(src).source.reliable() == old(src).source.reliable(),
+        (r is Err && old(src).source.reliable()) ==> fails_for_cause::<O>(old(src).source.inbox(), 0),
 //@ untag
 //@ fn src:zvt/src/sequences.rs | trait Sequence | into_stream | bodyonly macro=try_stream yieldctx=src all-loops props=C05,~C06
 //@ entry
